@@ -110,73 +110,52 @@ theorem C02_rfcWf_wf (b : Bundle) (h : rfcWf b = true) : wf b = true := by
   simp only [rfcWf, Bool.and_eq_true] at h
   exact h.1.1.1.1
 
-/-! ### EID normalisation examples (the `urlsplit` quirks the decoder mirrors; D19/D20) -/
+/-! ### EID normalisation: what is still rewritten, and the round trip over all RFC 9171 EIDs
 
-example : normEid (.dtn (ascii "//src?")) = some (.dtn (ascii "//src/")) := by decide +kernel
-example : normEid (.dtn (ascii "//n/a?b#c")) = some (.dtn (ascii "//n/a")) := by decide +kernel
+`normEid e = some e` (the EID part of `wf`) holds for a `dtn` scheme-specific part `s` exactly when
+`s ≠ "none"`, there is no TAB/CR/LF before the first `?`/`#`, and — with `p` the part of `s` before
+the first `?`/`#` — either `p` does not start with `//`, or it is `//` + non-empty ASCII authority
+without `[` `]` + `/` + anything. Still rewritten (none of them RFC 9171 EIDs): `//host` and
+`//host?q` get the `/` (`//host/`, `//host/?q`), an empty authority is dropped (`///x` → `/x`),
+TAB/CR/LF before the query are removed, the text `none` becomes `dtn:none`. -/
+
+example : normEid (.dtn (ascii "//src?")) = some (.dtn (ascii "//src/?")) := by decide +kernel
+example : normEid (.dtn (ascii "//n/a?b#c")) = some (.dtn (ascii "//n/a?b#c")) := by decide +kernel
+example : normEid (.dtn (ascii "//host")) = some (.dtn (ascii "//host/")) := by decide +kernel
+example : normEid (.dtn (ascii "///x")) = some (.dtn (ascii "/x")) := by decide +kernel
+example : normEid (.dtn (ascii "//h/a\tb?c\td")) = some (.dtn (ascii "//h/ab?c\td")) := by decide +kernel
 example : normEid (.dtn (ascii "none")) = some .dtnNone := by decide +kernel
-example : wfEid (.dtn (ascii "//node/svc")) = true ∧ wfEid (.dtn (ascii "//node")) = false := by
-  decide +kernel
+example : wfEid (.dtn (ascii "//node/svc?x=1#y")) = true ∧ wfEid (.dtn (ascii "//node")) = false
+    ∧ wfEid (.dtn (ascii "~mcast/grp")) = true := by decide +kernel
 
-/-! ### The full-strength round trip is false on the code that exists (D19) -/
+/-- Every RFC 9171 endpoint ID (`dtn:none`, `dtn://node-name/demux` with `demux = *VCHAR`, including
+    `?` and `#`; two-element `ipn`) is a fixed point of the code's normalisation. -/
+theorem C02_rfc_eid_fixed (e : Eid) (h : rfcEid e = true) : normEid e = some e :=
+  wfEid_norm (rfcEid_wf e h)
 
-def isNameChar (c : UInt8) : Bool :=
-  (0x30 ≤ c && c ≤ 0x39) || (0x41 ≤ c && c ≤ 0x5a) || (0x61 ≤ c && c ≤ 0x7a)
-  || c == 0x2d || c == 0x2e || c == 0x5f
-def isVchar (c : UInt8) : Bool := 0x21 ≤ c && c ≤ 0x7e
+/-- `wfRfcEids` (RFC 9171 EIDs, otherwise the conditions of `wf`) implies `wf`. -/
+theorem C02_wfRfcEids_wf (b : Bundle) (h : wfRfcEids b = true) : wf b = true := by
+  simp only [wfRfcEids, Bool.and_eq_true] at h
+  obtain ⟨⟨⟨⟨⟨⟨⟨⟨⟨⟨⟨hv, hf⟩, hc⟩, hd⟩, hs⟩, hr⟩, ht⟩, hq⟩, hl⟩, hfr⟩, hcrc⟩, hbl⟩ := h
+  simp only [wf, wfPrimary, Bool.and_eq_true]
+  exact ⟨⟨⟨⟨⟨⟨⟨⟨⟨⟨⟨hv, hf⟩, hc⟩, rfcEid_wf _ hd⟩, rfcEid_wf _ hs⟩, rfcEid_wf _ hr⟩, ht⟩, hq⟩, hl⟩, hfr⟩,
+    hcrc⟩, hbl⟩
 
-/-- RFC 9171 §4.2.5.1.1: `dtn-hier-part = "//" node-name name-delim demux`, `node-name =
-    1*(ALPHA/DIGIT/"-"/"."/"_")`, `name-delim = "/"`, `demux = *VCHAR`; §4.2.5.1.2 two-element ipn. -/
-def rfcEid : Eid → Bool
-  | .dtnNone => true
-  | .ipn ps => ps.length == 2 && ps.all u64
-  | .dtn ssp =>
-    u64 ssp.length &&
-    match ssp with
-    | 0x2f :: 0x2f :: t =>
-      let name := t.takeWhile isNameChar
-      !name.isEmpty &&
-      (match t.dropWhile isNameChar with
-       | 0x2f :: demux => demux.all isVchar
-       | _ => false)
-    | _ => false
+/-- **Round trip at the strength of the property text**: for every bundle whose EIDs are RFC 9171
+    well-formed (and whose integers/lengths fit CBOR, CRC type ≤ 2, conditional fields consistent),
+    decoding the encoded octets yields exactly the bundle. (Before the D19 fix in the repository
+    this statement was false: `dtn://node/svc?x=1` lost its query.) -/
+theorem C02_roundtrip_rfc (b : Bundle) (h : wfRfcEids b = true) : decodeBundle b.enc = some b :=
+  C02_roundtrip b (C02_wfRfcEids_wf b h)
 
-/-- `wf` with "EID is a fixed point of the urlsplit normalisation" replaced by "EID is RFC 9171
-    well-formed" — the predicate the property statement speaks about. -/
-def wfRfcEids (b : Bundle) : Bool :=
-  let p := b.primary
-  u64 p.version && u64 p.flags && p.crcType ≤ 2 && rfcEid p.dest && rfcEid p.src && rfcEid p.rpt
-  && u64 p.ts.time && u64 p.ts.seq && u64 p.lifetime
-  && (if isFragment p.flags then u64 p.fragOff && u64 p.totalLen
-      else p.fragOff == 0 && p.totalLen == 0)
-  && (if p.crcType != 0 then wfOptBytes p.crc else p.crc.isNone)
-  && b.blocks.all wfCanonical
-
-/-- The round trip at the strength of the property text (every RFC-well-formed EID). -/
-def C02_roundtrip_statement : Prop := ∀ b : Bundle, wfRfcEids b = true → decodeBundle b.enc = some b
-
-/-- destination `dtn://node/svc?x=1` (`?` is a VCHAR, allowed in the demux) -/
+/-- destination `dtn://node/svc?x=1#f` (`?`, `#` are VCHAR, allowed in the demux) -/
 def exD : Bundle :=
-  { primary := { dest := .dtn (ascii "//node/svc?x=1"), ts := ⟨1, 1⟩, lifetime := 1000 },
+  { primary := { dest := .dtn (ascii "//node/svc?x=1#f"), ts := ⟨1, 1⟩, lifetime := 1000 },
     blocks := [ { typeCode := 1, blockNum := 1, btsd := some (ascii "x") } ] }
 
-/-- D19: the decoded bundle is re-encoded (and compared, CRC-checked, reported on) with the
-    destination `dtn://node/svc` — `urlsplit` dropped the query part. `C02_roundtrip` therefore
-    carries the fixed-point condition inside `wf`; this is the witness that it cannot be dropped. -/
-theorem C02_roundtrip_counterexample : ¬ C02_roundtrip_statement := by
-  intro h
-  have h1 := h exD (by decide +kernel)
-  have h2 : decodeBundle exD.enc
-      = some { exD with primary := { exD.primary with dest := .dtn (ascii "//node/svc") } } := by
-    decide +kernel
-  rw [h2] at h1
-  exact absurd h1 (by decide +kernel)
-
-/-- … while on EIDs that are both RFC-well-formed and fixed points nothing is lost: the partial
-    theorem is `C02_roundtrip`; this shows the two predicates overlap on the ordinary cases. -/
-example : rfcEid (.dtn (ascii "//node/svc")) = true ∧ wfEid (.dtn (ascii "//node/svc")) = true
-    ∧ rfcEid (.dtn (ascii "//node/svc?x=1")) = true ∧ wfEid (.dtn (ascii "//node/svc?x=1")) = false := by
-  decide +kernel
+example : wfRfcEids exD = true := by decide +kernel
+example : decodeBundle exD.enc = some exD := C02_roundtrip_rfc exD (by decide +kernel)
+example : wfRfcEids exA = true := by decide +kernel
 
 /-! ### Facts of the source the model relies on -/
 
